@@ -48,6 +48,43 @@ Definition geo_type_from (s : string) : option aty :=
 Definition geo_container_of_string (s : string) : option Z :=
   match find (fun e => contains (fst e) s) geo_container_from with Some (_, c) => Some c | None => None end.
 
+(* urllib.parse.quote / unquote on ASCII text: letters, digits, "_.-~" and the characters of `safe` are kept, every other
+   character becomes %XX (upper-case hexadecimal) *)
+Definition hex_digit (n : N) : ascii :=
+  ascii_of_N (if (n <? 10)%N then 48 + n else 55 + n)%N.
+Definition hex_value (c : ascii) : option N :=
+  let n := N_of_ascii c in
+  if ((48 <=? n) && (n <=? 57))%N then Some (n - 48)%N
+  else if ((65 <=? n) && (n <=? 70))%N then Some (n - 55)%N
+  else if ((97 <=? n) && (n <=? 102))%N then Some (n - 87)%N else None.
+Definition always_safe (c : ascii) : bool :=
+  let n := N_of_ascii c in
+  (((48 <=? n) && (n <=? 57)) || ((65 <=? n) && (n <=? 90)) || ((97 <=? n) && (n <=? 122)) || (n =? 95) || (n =? 46) || (n =? 45) || (n =? 126))%N.
+Fixpoint in_string (c : ascii) (s : string) : bool :=
+  match s with EmptyString => false | String a t => Ascii.eqb a c || in_string c t end.
+Fixpoint pct_encode (safe : string) (s : string) : string :=
+  match s with
+  | EmptyString => EmptyString
+  | String c t =>
+      if always_safe c || in_string c safe then String c (pct_encode safe t)
+      else String "%"%char (String (hex_digit (N_of_ascii c / 16)) (String (hex_digit (N_of_ascii c mod 16)) (pct_encode safe t)))
+  end.
+Fixpoint pct_decode (s : string) : string :=
+  match s with
+  | EmptyString => EmptyString
+  | String c t =>
+      if Ascii.eqb c "%"%char then
+        match t with
+        | String a (String b t') =>
+            match hex_value a, hex_value b with
+            | Some x, Some y => String (ascii_of_N (16 * x + y)) (pct_decode t')
+            | _, _ => String c (pct_decode t)
+            end
+        | _ => String c (pct_decode t)
+        end
+      else String c (pct_decode t)
+  end.
+
 Section Geo.
 Variables F Ftxt Cx Ctxt : Type.
 Variable pf : F -> Ftxt.
@@ -58,6 +95,9 @@ Variable rc : Ctxt -> Cx.
 Variable cx_of_f : F -> Cx.
 Variable f_is_zero : F -> bool.   (* x == 0.0 *)
 Variable c_is_zero : Cx -> bool.  (* z == 0j *)
+(* urllib.parse.quote(text, safe=STRING_SAFE_CHARACTERS / NAME_SAFE_CHARACTERS) and unquote: string values and the names of
+   user attributes are percent-encoded in the file *)
+Variables enc_s dec_s enc_n dec_n : string -> string.
 
 Notation tok := (tok Ftxt Ctxt).
 Notation aval := (aval F Cx).
@@ -78,7 +118,7 @@ Definition print_aval (v : aval) : tok :=
   | VInt z => TInt z
   | VFloat x => fl x
   | VCx c => TCx (pc c)
-  | VStr s => TWord s
+  | VStr s => TWord (enc_s s)
   end.
 
 Definition geo_atts (h : list string) (n : Z) : list tok := map gw h ++ [TInt n].
@@ -86,7 +126,7 @@ Definition geo_attr_head (h : list string * Z * Z) : list tok :=
   let '(ws, bs, ar) := h in map gw ws ++ [TInt bs; TInt ar].
 (* export_attribute *)
 Definition geo_user_attr (cont : string) (a : attr) : list tok :=
-  [gw geo_exp_user_kw; gw (qs cont); gw (qs (a_name a)); gw (qs (geo_type_string (a_ty a)));
+  [gw geo_exp_user_kw; gw (qs cont); gw (qs (enc_n (a_name a))); gw (qs (geo_type_string (a_ty a)));
    TInt (geo_byte_size (a_ty a)); TInt (a_ar a)] ++ map print_aval (a_vals a).
 Definition user_cont (k : nat) : string := nth k geo_exp_user_cont ""%string.
 
@@ -163,7 +203,7 @@ Definition conv_data (t : aty) (x : tok) : option aval :=
       | TCx c => Some (VCx (rc c))
       | TWord _ => None
       end
-  | TyString => match x with TWord s => Some (VStr s) | _ => None end
+  | TyString => match x with TWord s => Some (VStr (dec_s s)) | _ => None end
   end.
 
 Definition tok_container (t : tok) : option Z := match t with TWord s => geo_container_of_string s | _ => None end.
@@ -374,7 +414,7 @@ Definition geo_step (sizes : list (option Z * Z)) (ptrs : list Z * list Z * list
     match ck_cont c, ck_name c with
     | Some cont, TWord nm =>
         match split_quote_1 nm, import_items not_default (ck_ar c) (ck_data c) with
-        | Some name, Some items => raw_set_attrs r cont (fun l => set_attr l (mksattr name (ck_dty c) (ck_ar c) items))
+        | Some name, Some items => raw_set_attrs r cont (fun l => set_attr l (mksattr (dec_n name) (ck_dty c) (ck_ar c) items))
         | _, _ => None
         end
     | _, _ => None
